@@ -11,12 +11,16 @@ GROUP = dict(
                   '__gnu_cxx::__alloc_traits<std::allocator<babylon::GarbageCollector<babylon_vf::R>::ReclaimTask>, babylon::GarbageCollector<babylon_vf::R>::ReclaimTask>::value_type': GC + '::ReclaimTask'},
     opaque_by_value=['babylon::Epoch', 'babylon::ConcurrentBoundedQueue<babylon::GarbageCollector<babylon_vf::R>::ReclaimTask>', 'std::thread', VEC, 'babylon_vf::R'],
     extern_re=[r'ConcurrentBoundedQueue<.*>::try_pop_n', r'ConcurrentBoundedQueue<.*>::capacity', r'Epoch::low_water_mark'],
-    roots=[GC + '::keep_reclaim', GC + '::reclaim_start_from', GC + '::consume_reclaim_task'],
-    reviewed_compiler_conditionals=[],
+    roots=[GC + '::keep_reclaim', GC + '::reclaim_start_from', GC + '::consume_reclaim_task', {'lambda_in': GC + '::consume_reclaim_task', 'ordinal': 1}],
+    reviewed_compiler_conditionals=['src/babylon/concurrent/bounded_queue.h:#if !__clang__ && BABYLON_GCC_VERSION < 50000'],
     assumptions=['std::vector<ReclaimTask> abstracted to its length and ghost counters (contract stubs)',
                  'consume_reclaim_task appends exactly what it popped before the stop marker (assumed contract; queue side is C01)',
                  'Epoch::low_water_mark is C09 (stub here)', 'thread creation/join (std::thread) trusted; stop() blocking while regions stay open is liveness, not claimed'],
     jobs=[
+        dict(id='C10.consume.lambda', enforce='GC_consume_reclaim_task_lambda_garbage_collector_consume_reclaim_task_1_op_call', loops=True, backend='cadical', defines=['VF_CONSUME 1'], object_bits=10,
+             covers=['g_moved == g_qn && g_qn > 3', 'g_moved < g_qn && g_moved > 2']),
+        dict(id='C10.consume', enforce='GC_consume_reclaim_task', replace=['GC_consume_reclaim_task_lambda_garbage_collector_consume_reclaim_task_1_op_call'], backend='cadical', defines=['VF_CONSUME 1'], object_bits=10,
+             covers=['g_stop_seen && g_moved > 1', '!g_stop_seen && g_moved > 1']),
         dict(id='C10.keep_reclaim', enforce='GC_keep_reclaim', loops=True, object_bits=10,
              replace=['GC_consume_reclaim_task', 'GC_reclaim_start_from', 'TaskVec_ctor_0', 'TaskVec_reserve', 'TaskVec_size', 'TaskVec_clear', 'TaskVec_dtor', 'TaskQ_capacity', 'vf_usleep']),
         dict(id='C10.reclaim_start_from', enforce='GC_reclaim_start_from', loops=True, object_bits=10,
